@@ -514,6 +514,30 @@ def h_empty_subscription(F, R):
                     fid, " plus the property block" if fam == "v5" else "", k2[1] if len(k2) > 1 else k2), where=fid)
         R.check(good, "H-raise", "empty-subscription/%s/%s" % (fam, typ),
                 "%s on a frame that ends after the packet identifier%s returns %r after reading %s" % (fid, " and an empty property block" if fam == "v5" else "", r, reads), where=fid)
+        # a frame whose only entry is the empty filter: the entry is read and the filter's constructor classifies it
+        # (InvalidTopicFilter carrying the string read), whatever length bookkeeping surrounds the read
+        def hook3(d, res, args, node, env):
+            r_ = res or d
+            if r_ == "common::utils::read_string":
+                return ok(Sym("EMPTY"))
+            if r_ == "common::utils::read_u8":
+                return ok(0)
+            if r_.endswith("TryFrom<alloc::string::String>>::try_from") and "TopicFilter" in r_:
+                return err(Adt("common::error::Error", "InvalidTopicFilter", {"0": args[0]}))
+            if node["fn"].get("name") == "len" and len(args) == 1 and args[0] == Sym("EMPTY"):
+                return 0
+            return hook(d, res, args, node, env)
+        n3 = 2 + 2 + (1 if typ == "Subscribe" else 0) + (1 if fam == "v5" else 0)
+        arg3 = n3 if fam == "v3" else _hdr("v5", typ, n3)
+        try:
+            k3 = result_kind(PE(F, call_hook=hook3, cond_hook=TRY_OK).call_fn(fid, [Sym("READER"), arg3]))
+        except Undecided as e:
+            k3 = ("undecided", str(e))
+        e3 = unwrap_common(k3[1]) if len(k3) > 1 else None
+        R.check(k3[0] == "err" and isinstance(e3, Adt) and e3.variant == "InvalidTopicFilter" and e3.fields.get("0") == Sym("EMPTY"),
+                "H-raise", "empty-filter-entry/%s/%s" % (fam, typ),
+                "%s on a frame whose only entry is the empty filter gives %r (documented: InvalidTopicFilter(the string read))" % (
+                    fid, k3[1] if len(k3) > 1 else k3), where=fid)
 
 
 # ---- short forms of the v5 acknowledgement family -------------------------------------------------------------------
